@@ -17,7 +17,7 @@ SPEC = Spec(
          "library directly at levels the client cannot select, header preset -> client skip branch), garbage (hostile/corrupted/"
          "truncated streams and odd header values). Bodies: zeros, text pattern, pseudo-random incompressible, explicit bytes; "
          "corpus first (3 reproduced defects, 1 MiB zip-bomb per algorithm, 64 KiB+-1 per algorithm, thorough: 1 MiB+-1 and all "
-         "decoder-list subsets x client types). non-trivial = some request was encoded, or rejected/panicked, or had a body within "
+         "decoder-list subsets x client types). 1 case in 8 (and 3 corpus cases) builds SEVERAL servers in one process: A with WithDecoder (a new name and/or an override of a built-in) and a restricted list, then B default/random, sometimes C restricted, probing that A still rejects what it did not list and that later servers are unaffected by the registration of A. non-trivial = some request was encoded, or rejected/panicked, or had a body within "
          "+-1 of the limit; distinct = distinct op sequences (sha1 of the op lines).",
     trusted_base=[
         "Lean 4.33.0 kernel; axioms per theorem listed under axioms_per_theorem (subset of propext, Classical.choice, Quot.sound)",
@@ -34,6 +34,6 @@ SPEC = Spec(
     ],
     assumptions=[
         "Outcome.rejected/handled are distinguished by whether the base handler ran (observed directly in the harness)",
-        "WithDecoder custom decoders and WithErrorHandler are not modelled (harness does not use them)",
+        "WithErrorHandler is not modelled; WithDecoder decoders are modelled as further lawful/hostile codecs keyed custom:<id> (the harness registers an xor decoder)",
     ],
 )
